@@ -331,7 +331,7 @@ func (s *SpecValidator) validateCircularAncestry(nm string, sch spec.Schema, kno
 		schn = sch.Ref.String()
 	}
 
-	if schn != nm && schn != "" {
+	if (schn != nm || sch.Ref.String() != "") && schn != "" { // a reference back to nm itself is a cycle too
 		if _, ok := knowns[schn]; ok {
 			ancs = append(ancs, schn)
 		}
